@@ -75,6 +75,9 @@ func init() {
 				"foreign_chain_probed":             1000,
 				"rlp_roundtrip":                    500,
 				"json_roundtrip":                   500,
+				"json_decode_into_used":            2000,
+				"rlp_decode_into_used":             1000,
+				"v_rewritten_replay_probed":        1000,
 				"cache_cross_signer_queries":       2000,
 				"cache_primed_by_string":           100,
 				"makesigner_heights":               100,
